@@ -159,6 +159,38 @@ template<typename T> static std::string do_grantf(const std::string& src, i128 n
   return std::string("ok ") + show((const void*)r.UNSAFE_unverified()) + " copied=" + (copied ? "1" : "0") + " " + touched();
 }
 
+// copy_memory_or_grant_access / copy_memory_or_deny_access on a backend that declares can_grant_deny_access and answers as `mode` says
+static rlbox::rlbox_sandbox<SbxAg> g_sbG;
+template<typename T> static std::string do_grantg(int mode, const std::string& src, i128 num)
+{
+  bool copied = false;
+  T* s = reinterpret_cast<T*>(addr_of(src));
+  auto* im = g_sbG.get_sandbox_impl(); im->brk = 0x8000;
+  vsbx::g_grant_mode = mode;
+  struct Reset { ~Reset() { vsbx::g_grant_mode = 0; } } reset;
+  auto r = rlbox::copy_memory_or_grant_access(g_sbG, s, (size_t)(uint64_t)num, false, copied);
+  auto p = reinterpret_cast<uintptr_t>(r.UNSAFE_unverified());
+  std::string where = p == 0 ? "null" : (p >= im->Base && p + (uint64_t)num * sizeof(T) <= im->Base + BLK) ? "inside" : "OUTSIDE";
+  bool same = p != 0 && where == "inside" && std::memcmp(reinterpret_cast<void*>(p), s, (size_t)num * sizeof(T)) == 0;
+  return std::string("ok ") + where + " copied=" + (copied ? "1" : "0") + " bytes=" + (same ? "same" : "DIFFERENT");
+}
+template<typename T> static std::string do_denyg(int mode, i128 num)
+{
+  bool copied = false;
+  auto* im = g_sbG.get_sandbox_impl(); im->brk = 0x8000;
+  auto p = g_sbG.malloc_in_sandbox<T>((uint32_t)num);
+  std::memset(p.UNSAFE_unverified(), 0x5c, (size_t)num * sizeof(T));
+  vsbx::g_grant_mode = mode;
+  struct Reset { ~Reset() { vsbx::g_grant_mode = 0; } } reset;
+  T* r = rlbox::copy_memory_or_deny_access(g_sbG, p, (size_t)(uint64_t)num, false, copied);
+  if (!r) return "ok nullret";
+  bool app = g_sbG.is_pointer_in_app_memory(r);
+  bool same = app && std::memcmp(r, p.UNSAFE_unverified(), (size_t)num * sizeof(T)) == 0;
+  std::string out = std::string("ok ") + (app ? "app" : "INSIDE-SANDBOX") + " copied=" + (copied ? "1" : "0") + " bytes=" + (same ? "same" : "DIFFERENT");
+  if (app) free(r);
+  return out;
+}
+
 template<template<typename> class F> struct ByEl;
 #define DISPATCH_EL(fn, ty, ...)                                                                   \
   (ty == "char" ? fn<char>(__VA_ARGS__) : ty == "short" ? fn<short>(__VA_ARGS__)                   \
@@ -169,6 +201,7 @@ int main()
 {
   g_sb0.create_sandbox();
   g_sb1.create_sandbox();
+  g_sbG.create_sandbox();
   void* a = mmap(reinterpret_cast<void*>(ARENA), 3 * BLK, PROT_READ | PROT_WRITE,
                  MAP_PRIVATE | MAP_ANONYMOUS | MAP_FIXED_NOREPLACE, -1, 0);
   if (a != reinterpret_cast<void*>(ARENA)) { fprintf(stderr, "arena map failed\n"); return 2; }
@@ -195,6 +228,20 @@ int main()
         if (t[1] == "char") return do_deny<char>(t[2], parse_dec(t[3]));
         if (t[1] == "short") return do_deny<short>(t[2], parse_dec(t[3]));
         if (t[1] == "double") return do_deny<double>(t[2], parse_dec(t[3]));
+        return "badop";
+      }
+      if (op == "grantg" && t.size() == 5) {
+        int mode = atoi(t[1].c_str());
+        if (t[2] == "char") return do_grantg<char>(mode, t[3], parse_dec(t[4]));
+        if (t[2] == "short") return do_grantg<short>(mode, t[3], parse_dec(t[4]));
+        if (t[2] == "double") return do_grantg<double>(mode, t[3], parse_dec(t[4]));
+        return "badop";
+      }
+      if (op == "denyg" && t.size() == 4) {
+        int mode = atoi(t[1].c_str());
+        if (t[2] == "char") return do_denyg<char>(mode, parse_dec(t[3]));
+        if (t[2] == "short") return do_denyg<short>(mode, parse_dec(t[3]));
+        if (t[2] == "double") return do_denyg<double>(mode, parse_dec(t[3]));
         return "badop";
       }
       if (op == "grantf" && t.size() == 5) {
